@@ -46,6 +46,8 @@ type ctlGen struct {
 	alt    bool   // peers 11..13 (second PFCP entity on the host of peers 1..3) are bound
 	queue  []*event // events still to come, decided earlier (before `forced`)
 	maxRetrans int
+	p7     bool // the node 4:p7 (address not reachable from the UPF) has associated in this history
+	dark   []uint64 // sessions established under that node
 }
 
 type outSRR struct {
@@ -102,6 +104,9 @@ func (g *ctlGen) nodeID() string {
 	case 0:
 		return "6:fd00::" + strconv.Itoa(1+g.r.intn(2))
 	case 1:
+		if g.r.chance(50) {
+			return "4:p7" // an IPv4 node id whose address the UPF cannot reach (sendto fails): reports for its sessions are lost on the way
+		}
 		return "4:p9" // an IPv4 node id nobody associated / another address
 	default:
 		return "4:p" + strconv.Itoa(g.peer())
@@ -289,6 +294,9 @@ func (g *ctlGen) genOf(ev *event, k string) *event {
 			} else {
 				ev.node = g.nodeID()
 			}
+			if g.p7 && r.chance(12) {
+				ev.node = "4:p7"
+			}
 		}
 		if !r.chance(4) {
 			cp := uint64(1 + r.intn(3)) // deliberately coinciding control-plane SEIDs across peers
@@ -311,6 +319,9 @@ func (g *ctlGen) genOf(ev *event, k string) *event {
 		ev.seq = g.nextSeq(ev.peer)
 		if k == "takeover" {
 			ev.node = g.nodeID()
+			for ev.node == "4:p7" {
+				ev.node = g.nodeID() // (the unreachable node gets its sessions by establishing them)
+			}
 		}
 		nkeys := 1 + r.intn(4)
 		for i := 0; i < nkeys; i++ {
@@ -367,6 +378,14 @@ func (g *ctlGen) genOf(ev *event, k string) *event {
 	case "report":
 		ev.typ = "report"
 		ev.seid = g.anySeid()
+		if len(g.dark) > 0 && r.chance(35) {
+			// a packet handed up for a session whose SMF cannot be reached: the notification is lost on the way (sendto fails),
+			// the packet is held all the same
+			ev.seid = g.dark[r.intn(len(g.dark))]
+			it := repItem{pdr: uint16(1 + r.intn(3)), action: uint16([]int{0x0c, 0x0c, 0x04}[r.intn(3)]), pkt: r.bytes(1 + r.intn(40))}
+			ev.items = append(ev.items, it)
+			return ev
+		}
 		n := 1 + r.intn(3)
 		dl := r.chance(30)
 		for i := 0; i < n; i++ {
@@ -515,6 +534,9 @@ func (g *ctlGen) observe(ev *event, sends map[int][]string) {
 					up, _ := strconv.ParseUint(strings.Split(fs, "/")[0], 16, 64)
 					cp, _ := strconv.ParseUint(m["seid"], 16, 64)
 					g.sess = append(g.sess, &sessShadow{peer: p, cp: cp, up: up})
+					if ev.kind == "est" && ev.node == "4:p7" {
+						g.dark = append(g.dark, up)
+					}
 				}
 			case "srreq":
 				seq, _ := strconv.ParseUint(m["seq"], 10, 32)
@@ -596,6 +618,13 @@ func runCtl(c *ctx) {
 				s, _ := e.exec(ev)
 				g.observe(ev, s)
 			}
+		}
+		// now and then a node whose address the UPF cannot reach associates too (from peer 1's socket)
+		if r.chance(20) {
+			ev := &event{typ: "recv", kind: "assoc", peer: 1, seq: g.nextSeq(1), node: "4:p7", lists: map[string][]rule{}}
+			s, _ := e.exec(ev)
+			g.observe(ev, s)
+			g.p7 = true
 		}
 		for i := 0; i < n && !e.dead; i++ {
 			ev := g.gen()
